@@ -2,21 +2,35 @@
 from common import *
 import string
 
-RULE = ("record lists of length 1..200 (log-uniform), names of 0..40 printable ASCII characters (any, including leading '>' ';' "
-        "and spaces), sequences of 0..300000 ASCII letters (log-uniform, plus fixed cases at 65535/65536/65537/70000/300000 "
+RULE = ("record lists of length 1..200 (log-uniform), names of 0..40 printable characters - ASCII 32..126 (any, including leading "
+        "'>' ';' and spaces) and, in a quarter of the names, multi-byte characters (Latin-1, Greek, CJK, emoji) - plus names of "
+        "1 KiB and 70 KiB, sequences of 0..300000 ASCII letters (log-uniform, plus fixed cases at 65535/65536/65537/70000/300000 "
         "letters on one line), laid out by Lean's layoutFasta with per-record line lengths 1..(beyond the sequence), blank "
         "and ';' lines before/after the header and between sequence lines, LF or CRLF per record, with or without final "
-        "newline; read through Parse, Read (file) and ReadGz (Go's gzip writer); Build/Write round trips; ParseConcurrent / "
-        "ReadConcurrent / ReadGzConcurrent on channel capacities 0..1000 with a seeded randomly stalling consumer. "
+        "newline; read through Parse, Read (file) and ReadGz (Go's gzip writer, one member or two concatenated members); "
+        "Build/Write round trips; ParseConcurrent / ReadConcurrent / ReadGzConcurrent on channel capacities 0..1000 with a "
+        "seeded randomly stalling consumer (stalls up to 3 ms; thorough: also one stall of 1.5 s), also fed through a slow "
+        "io.Pipe reader for capacities 0,1,2,3,8 (parsing overlaps consumption); whitespace-only lines among the ignorable "
+        "lines; Build's text is held across further Build calls (sequential and two goroutines). Quick tier: a race-detector run over a subset incl. a > 64 KiB stream. "
         "non-trivial = at least one record has a non-empty sequence; distinct by case text")
 EXHAUSTIVE = {"quick": False, "thorough": False}
 TRUSTED_BASE = ["compress/gzip (Go's writer and reader are both outside the model)",
                 "bufio.Scanner/ScanLines modelled in Lean (Model/Fasta.lean scanLines); os file I/O",
                 "the Go scheduler and memory model: the channel semantics of Base/Chan.lean is the language specification's, "
                 "data races are looked for by the -race runs only"]
-ASSUMPTIONS = ["inputs are ASCII", "every line is shorter than math.MaxInt32 - 1 bytes (the scanner's limit after fix 99317d2)",
+ASSUMPTIONS = ["names may contain non-ASCII characters; the model works on code points, Go on UTF-8 bytes: they agree because no byte of a "
+               "multi-byte character is LF, CR, '>' or ';' (argued and tested, not proved); LinesFit counts characters, the "
+               "scanner bytes (irrelevant below 2^31/4 characters per line)",
+               "'blank line' = empty line or a line of blanks and tabs (other Unicode white space is modelled, goIsSpace, and tied by "
+               "raw correspondence cases, but not part of the layouts)", "every line is shorter than math.MaxInt32 - 1 bytes (the scanner's limit after fix 99317d2)",
                "a consumer is determined by the channels it is blocked on as a function of what it has received (no select-default/timeouts)"]
-PARTIAL = []
+PARTIAL = ["'unchanged by gzip compression': no theorem; compress/gzip is a trusted component and the clause rests on the runs "
+           "through Go's own gzip writer (one and two members) and reader",
+           "'the streaming parser delivers the identical records': the producer of the model is DEFINED as 'send the records of "
+           "parse, in order, then close' (Model/Fasta.producer); that the goroutine, which interleaves scanning and sending, performs "
+           "exactly these sends rests on the stream correspondence cases; stream_* are theorems about every schedule of that producer",
+           "non-ASCII names: theorems are over code points (see ASSUMPTIONS)",
+           "data races are outside the model: -race runs only"]
 TECHNIQUE = ("Lean 4 proof over an executable model of the scanner, the parser loop, Build and the producer goroutine on a "
              "small-step channel semantics; independent layout writer as spec; differential correspondence incl. schedules")
 LEVEL_TEXT = ("Kernel-checked for all record lists, sequence lengths, layouts, capacities and schedules: parse_build, parse_layout "
@@ -29,6 +43,7 @@ LEVEL_NOTE = ("Trusted: Lean kernel; harness; gzip; the scheduler. The exact pos
 HARNESS_BIN = "run-io"
 EXTRACT_BINS = []
 NEEDS_RACE = True
+NEEDS_RACE_QUICK = True
 TIMEOUT_MS = 60000
 
 LETTERS = string.ascii_letters
@@ -43,9 +58,12 @@ def seq(r, n):
     return "".join(r.choices(alpha, k=n))
 
 
+NONASCII = "éüßñçÅøΩλπжЯ世界配列ｱ ☃🧬😀"
+
+
 def name(r):
     k = r.choice([0, 1, 1, 3, 8, 8, 20, 40])
-    s = "".join(r.choices(PRINTABLE, k=k))
+    s = "".join(r.choices(PRINTABLE + NONASCII if r.random() < 0.25 else PRINTABLE, k=k))
     if k and r.random() < 0.25:
         s = r.choice([">", ";", " ", ">>", "; "]) + s[1:]
     return s
@@ -56,8 +74,11 @@ def junks(r, p):
         return ""
     items = []
     for _ in range(r.randint(1, 3)):
-        if r.random() < 0.5:
+        c = r.random()
+        if c < 0.4:
             items.append("b")
+        elif c < 0.6:
+            items.append("s" + "".join(r.choices(" \t", weights=[4, 1], k=r.randint(1, 5))))   # blanks / tabs only
         else:
             items.append("c" + "".join(r.choices(COMMENTCH, k=r.choice([0, 1, 5, 30]))))
     return "\n".join(items)
@@ -111,19 +132,19 @@ def layout_fields(r, recs, junk_p):
 
 
 def layout_case(r, recs, mode=None, junk_p=0.3):
-    mode = mode or r.choice(["plain", "plain", "file", "gz"])
+    mode = mode or r.choice(["plain", "plain", "file", "gz", "gz2"])
     return ["layout", mode, "1" if r.random() < 0.7 else "0", str(len(recs))] + layout_fields(r, recs, junk_p)
 
 
 def build_case(r, recs, mode=None):
-    mode = mode or r.choice(["plain", "plain", "file", "gz"])
+    mode = mode or r.choice(["plain", "plain", "file", "gz", "gz2"])
     out = ["build", mode, str(len(recs))]
     for (nm, sq) in recs:
         out += [nm, sq]
     return out
 
 
-def stream_case(r, recs, cap=None, src=None):
+def stream_case(r, recs, cap=None, src=None, stall=None):
     if cap is None:
         c = r.random()
         n = len(recs)
@@ -133,13 +154,14 @@ def stream_case(r, recs, cap=None, src=None):
         elif c < 0.7: cap = max(0, n + r.choice([-1, 0, 1]))
         elif c < 0.8: cap = 1000
         else: cap = r.randint(0, 1000)
-    src = src or r.choice(["mem", "mem", "mem", "file", "gz"])
-    stall = r.choice([0, 50, 300, 700, 1000])
+    src = src or r.choice(["mem", "mem", "mem", "file", "gz", "gz2"])
+    stall = r.choice([0, 50, 300, 700, 1000]) if stall is None else stall
     return (["stream", src, str(cap), str(r.randint(0, 2 ** 31)), str(stall), "1" if r.random() < 0.7 else "0",
              str(len(recs))] + layout_fields(r, recs, 0.2))
 
 
-RAW = ["", "\n", "\r", "\r\n", "ACGT", "ACGT\n>a\nTT", ">a", ">a\n", ">\n", ">a\r", ">a\n\r", ">a\nAC\r\nGT\r", ";c\n>a\nA",
+RAW = ["\u00a0", ">a\nAC\n\u00a0\u2003\nGT", ">a\nAC\n\u200b\nGT", ">a\n\x0b\x0c\nGT\n\u0085\n", " \t\r\n>a\n \nA", ">a\nAC\n  ;x\nGT",
+       ">a\nAC\n  >b\nGT", "\u3000>a\nAC", "", "\n", "\r", "\r\n", "ACGT", "ACGT\n>a\nTT", ">a", ">a\n", ">\n", ">a\r", ">a\n\r", ">a\nAC\r\nGT\r", ";c\n>a\nA",
        ">a\n>b\n>c", ">a\nAC GT\n", " >a\nAC\n", ">a\n;x\n\n\nAC\n;y\nGT\n>b", "\n\n>a\n\nA\n\n", ">a\nA\r\r\n", ">a\n>\n>",
        "A\n;\n>", ">a\tb\nAC\n", ">a\nA>C\n>b;\n;C", "x\ny\nz", ">\\a\nAC\\n", ">a\n\x0bAC\n"]
 
@@ -167,7 +189,16 @@ def cases(seed, tier):
         yield build_case(r, recs, "plain")
         yield ["layout", "plain", "1", "2", recs[0][0], recs[0][1], "0", str(k + 5), "", "", "", "",
                recs[1][0], recs[1][1], "1", "2", "", "", "", ""]
+    # long names (a header line beyond the scanner's initial buffer) and non-ASCII names
+    yield build_case(r, [("n" * 1024, "ACGT"), ("".join(r.choices(PRINTABLE, k=70000)), seq(r, 10)), ("z", "")], "plain")
+    yield ["layout", "gz2", "1", "2", "".join(r.choices(PRINTABLE + NONASCII, k=70000)), seq(r, 100), "1", "9", "", "b", "", "",
+           "世界 🧬 é", seq(r, 50), "0", "0", "", "", "", ""]
+    yield stream_case(r, [("".join(r.choices(PRINTABLE + NONASCII, k=66000)), seq(r, 70000)), ("é", "A")], cap=0, src="gz2")
+    if not quick:
+        for cap in (0, 1, 5):   # a slow consumer: one stall of 1.5 s
+            yield stream_case(r, rec_list(r, 5000, nmax=12), cap=cap, src="mem", stall=2500)
     yield build_case(r, [("gz", seq(r, 300000))], "gz")
+    yield build_case(r, [("gz2", seq(r, 150000)), ("m2", seq(r, 150000))], "gz2")
     yield build_case(r, [("file", seq(r, 200000)), ("f2", "")], "file")
     big = seq(r, 300000 if not quick else 100000)
     yield ["layout", "gz", "0", "1", "w1", big, "0", "0", "", "", "", ""]        # one letter per line
@@ -189,6 +220,14 @@ def cases(seed, tier):
         recs = [(name(r), seq(r, r.choice([0, 1, 10, 100]))) for _ in range(r.choice([199, 200]))]
         yield stream_case(r, recs)
         yield layout_case(r, recs)
+    # --- order under back-pressure: small capacities, a stalling consumer, and a SLOW READER (io.Pipe fed in
+    # --- small pieces), so that records are finished while the channel is full and slots are freed while
+    # --- the parser is still reading; the whole received ORDER is compared
+    for cap in (0, 1, 2, 3, 8):
+        for k in range(4 if quick else 40):
+            n = r.randint(5, 40)
+            recs = [("r%03d" % i + name(r)[:6], seq(r, r.choice([0, 3, 30, 120]))) for i in range(n)]
+            yield stream_case(r, recs, cap=cap, src="pipe", stall=r.choice([300, 700, 1000]))
     # --- out of the property's domain: correspondence only
     for t in RAW:
         yield ["raw", t]
@@ -202,15 +241,23 @@ def cases(seed, tier):
         yield ["raw", t]
 
 
+RACE_ENV = {"GORACE": "halt_on_error=1", "VERIF_FLUSH_EACH": "1"}
+
+
 def extra_runs(seed, tier, case_lines):
-    if tier != "thorough":
-        return
     streams = [c for c in case_lines if c.startswith("stream\t")]
     small = [c for c in streams if len(c) < 20000]
+    big = [c for c in streams if len(c) >= 66000]     # texts beyond the scanner's 64 KiB initial buffer
+    parses = [c for c in case_lines if c.startswith(("layout\t", "build\t")) and len(c) < 20000]
+    pipes = [c for c in streams if c.startswith("stream\tpipe\t")]
+    if tier != "thorough":
+        # quick: a small race-detector run (Parse is concurrent too), with two > 64 KiB streams
+        yield ("race-q", small[::6][:40] + pipes[::2] + big[:2] + parses[::25][:20], dict(RACE_ENV, GOMAXPROCS="4"), True)
+        return
     for procs in ("1", "2", "16"):
         # the race-detector binary, 3 disjoint thirds so that the whole set is run once under -race and
-        # the schedules differ between GOMAXPROCS settings
+        # the schedules differ between GOMAXPROCS settings; every > 64 KiB stream in each
         k = {"1": 0, "2": 1, "16": 2}[procs]
-        yield ("race-p" + procs, small[k::3] + streams[:40], {"GOMAXPROCS": procs}, True)
+        yield ("race-p" + procs, small[k::3] + big[:30] + parses[k::9][:300], dict(RACE_ENV, GOMAXPROCS=procs), True)
     yield ("p1", streams[::2], {"GOMAXPROCS": "1"}, False)
     yield ("p16", streams[1::2], {"GOMAXPROCS": "16"}, False)
